@@ -25,7 +25,8 @@ ANYTHING ELSE raises Unsupported naming the node: the translator never guesses.
 Partial operations (d[k], data[attr], `x in s` with s possibly None) become a py_guard in front of the statement
 that evaluates them, raising KeyError / TypeError as Python would; they are rejected where evaluation is
 conditional (right operand of and/or).  A local may only be read where it is definitely assigned."""
-import ast, os, sys
+import ast, os, sys, warnings
+warnings.filterwarnings("ignore", category=SyntaxWarning)       # invalid escape sequences in docstrings of the parsed source
 
 # ------------------------------------------------------------------------------------------ types
 INT, NUM, EXT, BOOL, NODE, EDATA, ATTR, GRAPH, BOT, NONE, STR = (("Int",), ("Num",), ("Ext",), ("Bool",), ("Node",),
@@ -35,6 +36,9 @@ def List(t): return ("List", t)
 def Set(t): return ("Set", t)
 def Dict(k, v): return ("Dict", k, v)
 def Opt(t): return ("Opt", t)
+VAR, LEXP, CON, WRAP, HNAME, BITS = ("Var",), ("LinExpr",), ("Constr",), ("Wrapper",), ("HelperName",), ("BitCount",)
+def VarDict(fam, key): return ("VarDict", fam, key)
+ERASED = (("Attr",), ("Wrapper",), ("Str",))        # parameters of these types do not appear in the Gallina signature
 EDGE = Tuple(NODE, NODE)
 DEDGE = Tuple(NODE, NODE, EDATA)
 NUMERIC = {INT: 0, NUM: 1, EXT: 2}
@@ -60,7 +64,65 @@ TARGETS = {
                          params=[GRAPH, ATTR, Opt(Set(EDGE))], defaults=[], ret=EXT),
     "check_flow_conservation": dict(file="flowpaths/utils/graphutils.py", cls=None, func="check_flow_conservation",
                                     params=[GRAPH, ATTR], defaults=[], ret=BOOL),
+    # functions that EMIT rows / columns (SolverWrapper helpers, C12): fn returns (outcome, columns, rows)
+    "binprod": dict(file="flowpaths/utils/solverwrapper.py", cls="SolverWrapper", func="add_binary_continuous_product_constraint",
+                    params=[WRAP, VAR, VAR, VAR, NUM, NUM, STR], defaults=[], ret=NONE, emits=True),
+    "intprod": dict(file="flowpaths/utils/solverwrapper.py", cls="SolverWrapper", func="add_integer_continuous_product_constraint",
+                    params=[WRAP, VAR, VAR, VAR, NUM, NUM, HNAME], defaults=[], ret=NONE, emits=True),
+    "pwc": dict(file="flowpaths/utils/solverwrapper.py", cls="SolverWrapper", func="add_piecewise_constant_constraint",
+                params=[WRAP, VAR, VAR, List(Tuple(NUM, NUM)), List(NUM), HNAME], defaults=[], ret=NONE, emits=True),
 }
+# name_prefix=f"<prefix>{name}" of self.add_variables -> variable family of Lin.v (the table the E1 harness uses as well)
+PREFIX_FAMILY = {"binary_": "fBit", "comp_": "fComp", "z_": "fZ"}
+
+# The three SolverWrapper primitives the helpers are written in.  Their HiGHS path must have exactly this shape; what the
+# calls mean is fixed in coq/theories/PyLin.v (mk_row, py_quicksum, py_add_variables).  Anything else: fail closed.
+PRIMITIVES = {
+    "add_constraint": dict(args="self, expr, name=''", path=[
+        ("if-test", 0, "self.external_solver == 'highs'"),
+        ("if-body", 0, "self.solver.addConstr(expr, name=name)")]),
+    "quicksum": dict(args="self, expr", path=[
+        ("if-test", 0, "self.external_solver == 'highs'"),
+        ("if-body", 0, "return self.solver.qsum(expr)")]),
+    "add_variables": dict(args="self, indexes, name_prefix: str, lb=0, ub=1, var_type='integer'", path=[
+        ("def-first", 0, "if isinstance(param, (int, float)):\n    return [float(param)] * len(indexes)"),
+        ("stmt", 1, "lbs = _materialize_bounds(lb, 0.0, 'lb')"),
+        ("stmt", 2, "ubs = _materialize_bounds(ub, 1.0, 'ub')"),
+        ("if-test", 3, "self.external_solver == 'highs'"),
+        ("if-body", 3, "var_type_map = {'integer': highspy.HighsVarType.kInteger, 'continuous': highspy.HighsVarType.kContinuous}\n"
+                       "return self.solver.addVariables(indexes, lb=lbs, ub=ubs, type=var_type_map[var_type], name_prefix=name_prefix)")]),
+}
+
+
+def check_primitives(classdef):
+    def norm(src): return ast.dump(ast.parse(src))
+    def body_of(f):
+        b = list(f.body)
+        if b and isinstance(b[0], ast.Expr) and isinstance(b[0].value, ast.Constant) and isinstance(b[0].value.value, str): b = b[1:]
+        return b
+    for name, spec in PRIMITIVES.items():
+        fs = [n for n in classdef.body if isinstance(n, ast.FunctionDef) and n.name == name]
+        if len(fs) != 1: raise Unsupported("source layout: SolverWrapper.%s not found exactly once" % name)
+        f = fs[0]
+        if f.decorator_list: raise Unsupported("decorator on SolverWrapper.%s" % name, f)
+        if ast.unparse(f.args) != spec["args"]:
+            raise Unsupported("signature of the primitive SolverWrapper.%s: (%s), expected (%s)" % (name, ast.unparse(f.args), spec["args"]), f)
+        b = body_of(f)
+        for kind, k, want in spec["path"]:
+            if k >= len(b): raise Unsupported("structure of the primitive SolverWrapper.%s changed (statement %d missing)" % (name, k), f)
+            st = b[k]
+            if kind == "stmt": got = [st]
+            elif kind == "def-first":
+                if not isinstance(st, ast.FunctionDef): raise Unsupported("structure of the primitive SolverWrapper.%s changed" % name, st)
+                got = body_of(st)[:1]
+            else:
+                if not isinstance(st, ast.If): raise Unsupported("structure of the primitive SolverWrapper.%s changed (no backend branch)" % name, st)
+                got = [ast.Expr(st.test)] if kind == "if-test" else st.body
+            if ast.dump(ast.Module(body=got, type_ignores=[])) != norm(want):
+                raise Unsupported("the HiGHS path of the primitive SolverWrapper.%s changed: `%s`, expected `%s`"
+                                  % (name, "; ".join(ast.unparse(x) for x in got)[:160], want.replace("\n", "; ")[:160]), st)
+        if len(b) != max(k for _, k, _ in spec["path"]) + 1:
+            raise Unsupported("structure of the primitive SolverWrapper.%s changed (%d top-level statements)" % (name, len(b)), f)
 
 
 def has_bot(t):
@@ -100,6 +162,11 @@ def gty(t):
     if t == NODE: return "N"
     if t == EDATA: return "(option Q)"
     if t == GRAPH: return "pygraph"
+    if t in (VAR, HNAME): return "var"
+    if t == LEXP: return "lexp"
+    if t == CON: return "lcon"
+    if t == BITS: return "Z"
+    if t[0] == "VarDict": return "(N * var)%type"
     if t[0] == "Tuple": return "(" + " * ".join(gty(x) for x in t[1:]) + ")%type"
     if t[0] in ("List", "Set"): return "(list %s)" % gty(t[1])
     if t[0] == "Dict": return "(list (%s * %s))" % (gty(t[1]), gty(t[2]))
@@ -115,6 +182,10 @@ def dflt(t):
     if t == NODE: return "0%N"
     if t == EDATA: return "None"
     if t == GRAPH: return "py_empty_graph"
+    if t in (VAR, HNAME): return "(V 0%N [])"
+    if t == LEXP: return "(LConst (0#1)%Q)"
+    if t == BITS: return "0%Z"
+    if t[0] == "VarDict": return "(0%N, V 0%N [])"
     if t[0] == "Tuple": return "(" + ", ".join(dflt(x) for x in t[1:]) + ")"
     if t[0] in ("List", "Set", "Dict"): return "[]"
     if t[0] == "Opt": return "None"
@@ -138,6 +209,9 @@ def coerce(term, a, b, node=None):
     if a == INT and b == NUM: return "(inject_Z %s)" % term
     if a == INT and b == EXT: return "(Fin (inject_Z %s))" % term
     if a == NUM and b == EXT: return "(Fin %s)" % term
+    if b == LEXP:
+        if a == VAR: return "(LVar %s)" % term
+        if a in (INT, NUM): return "(LConst %s)" % coerce(term, a, NUM, node)
     if b[0] == "Opt":
         if a == NONE: return "None"
         if a[0] == "Opt":
@@ -150,11 +224,11 @@ def coerce(term, a, b, node=None):
 
 
 NUMOPS = {  # per numeric type: add sub ltb leb eqb max min
-    INT: dict(add="Z.add", sub="Z.sub", ltb="Z.ltb", leb="Z.leb", eqb="Z.eqb", max="Zmax_py", min="Zmin_py"),
-    NUM: dict(add="Qplus", sub="Qminus", ltb="Qltb", leb="Qle_bool", eqb="Qeq_bool", max="Qmax_py", min="Qmin_py"),
+    INT: dict(mul="Z.mul", add="Z.add", sub="Z.sub", ltb="Z.ltb", leb="Z.leb", eqb="Z.eqb", max="Zmax_py", min="Zmin_py"),
+    NUM: dict(mul="Qmult", add="Qplus", sub="Qminus", ltb="Qltb", leb="Qle_bool", eqb="Qeq_bool", max="Qmax_py", min="Qmin_py"),
     EXT: dict(ltb="xq_ltb", leb="xq_leb", eqb="xq_eqb", max="xq_max", min="xq_min"),
 }
-EXNS = ("ValueError", "KeyError", "TypeError", "RuntimeError")
+EXNS = ("ValueError", "KeyError", "TypeError", "RuntimeError", "IndexError")
 LOG_METHODS = ("debug", "info", "warning", "error", "critical", "exception", "log")
 
 
@@ -176,11 +250,18 @@ class Fn:
         self.src_path = path
         tree = ast.parse(open(path).read(), filename=path)
         scope = tree.body
+        self.module_imports = {}       # local name -> dotted origin, module level only
+        for n in tree.body:
+            if isinstance(n, ast.ImportFrom) and n.level == 0:
+                for a in n.names: self.module_imports[a.asname or a.name] = "%s.%s" % (n.module, a.name)
+            elif isinstance(n, ast.Import):
+                for a in n.names: self.module_imports[a.asname or a.name] = a.name
+        self.classdef = None
         if self.spec["cls"]:
             cs = [n for n in scope if isinstance(n, ast.ClassDef) and n.name == self.spec["cls"]]
             if len(cs) != 1:
                 raise Unsupported("source layout: class %s not found exactly once in %s" % (self.spec["cls"], self.spec["file"]))
-            scope = cs[0].body
+            scope = cs[0].body; self.classdef = cs[0]
         fs = [n for n in scope if isinstance(n, ast.FunctionDef) and n.name == self.spec["func"]]
         if len(fs) != 1:
             raise Unsupported("source layout: function %s not found exactly once in %s" % (self.spec["func"], self.spec["file"]))
@@ -196,6 +277,10 @@ class Fn:
             raise Unsupported("signature: default values %s, the embedding declares %s" % ([ast.unparse(d) for d in a.defaults], self.spec["defaults"]), f)
         self.params = [x.arg for x in a.args]
         self.ptype = dict(zip(self.params, self.spec["params"]))
+        self.emits = bool(self.spec.get("emits"))
+        self.callees = []              # other translated targets this function calls (their Gen modules are required)
+        if self.emits:
+            check_primitives(self.classdef)
         self.collect_names()
 
     # -------------------------------------------------------------------------------- names
@@ -207,16 +292,22 @@ class Fn:
             if isinstance(t, ast.Name): return [t.id]
             if isinstance(t, ast.Tuple) and all(isinstance(x, ast.Name) for x in t.elts): return [x.id for x in t.elts]
             raise Unsupported("loop target", t)
-        def walk(stmts):
+        self.assign_count = {}   # name -> number of assignment statements
+        self.assign_value = {}   # name -> value node of its (last seen) plain top-level assignment
+        def walk(stmts, depth=0):
             for s in stmts:
                 if isinstance(s, ast.Assign):
                     if len(s.targets) != 1 or not isinstance(s.targets[0], ast.Name):
                         raise Unsupported("assignment target (only `name = expr`)", s)
-                    if s.targets[0].id not in self.locals: self.locals.append(s.targets[0].id)
+                    n = s.targets[0].id
+                    if n not in self.locals: self.locals.append(n)
+                    self.assign_count[n] = self.assign_count.get(n, 0) + (1 if depth == 0 else 2)   # inside a loop / branch: not stable
+                    self.assign_value[n] = s.value
                 elif isinstance(s, ast.AugAssign):
                     if not isinstance(s.target, ast.Name):
                         raise Unsupported("augmented-assignment target", s)
                     if s.target.id not in self.locals: self.locals.append(s.target.id)
+                    self.assign_count[s.target.id] = self.assign_count.get(s.target.id, 0) + 2
                 elif isinstance(s, ast.For):
                     ns = targets_of_for(s.target)
                     if len(set(ns)) != len(ns): raise Unsupported("loop target repeats a name", s)
@@ -225,16 +316,16 @@ class Fn:
                         self.for_names[id(s)].append("i%d" % len(self.loopvars))
                         self.loopvars.append(n)
                     if s.orelse: raise Unsupported("for/else", s)
-                    walk(s.body)
+                    walk(s.body, depth + 1)
                 elif isinstance(s, ast.If):
-                    walk(s.body); walk(s.orelse)
+                    walk(s.body, depth + 1); walk(s.orelse, depth + 1)
         walk(self.fdef.body)
         for n in self.loopvars:
             if n in self.locals or n in self.params:
                 raise Unsupported("loop variable %r is also assigned / a parameter" % n, self.fdef)
         self.state_params = [p for p in self.params if p in self.locals]
         for p in self.state_params:
-            if self.ptype[p] == ATTR: raise Unsupported("assignment to the attribute-name parameter", self.fdef)
+            if self.ptype[p] in ERASED: raise Unsupported("assignment to the erased parameter %r" % p, self.fdef)
         self.xname = {n: "x%d" % i for i, n in enumerate(self.locals)}
         self.aname = {n: "a%d" % i for i, n in enumerate(self.params)}
 
@@ -252,10 +343,10 @@ class Fn:
             if n not in env["defined"]:
                 raise Unsupported("read of local %r where it may be unassigned" % n, e)
             return "(%s s)" % self.xname[n], env["vt"][n], []
-        if n in self.loopvars:
-            if n not in env["bound"]:
-                raise Unsupported("read of loop variable %r outside its loop" % n, e)
+        if n in env["bound"]:
             return env["bound"][n][0], env["bound"][n][1], []
+        if n in self.loopvars:
+            raise Unsupported("read of loop variable %r outside its loop" % n, e)
         if n in self.params:
             return self.aname[n], self.ptype[n], []
         raise Unsupported("name %r (not a parameter, local or loop variable)" % n, e)
@@ -265,7 +356,17 @@ class Fn:
         if isinstance(v, bool): return ("true" if v else "false"), BOOL, []
         if isinstance(v, int): return "(%d)%%Z" % v, INT, []
         if v is None: return "None", NONE, []
+        if isinstance(v, str): return "tt", STR, []          # only as an (erased) name argument / message
         raise Unsupported("constant %r" % (v,), e)
+
+    def e_JoinedStr(self, e, env):
+        g = []
+        for v in e.values:
+            if isinstance(v, ast.FormattedValue):
+                if v.format_spec is not None or v.conversion != -1: raise Unsupported("format specification in an f-string", e)
+                t, ty, gg = self.expr(v.value, env)       # Python evaluates it; its value only ends up in a name
+                g += gg
+        return "tt", STR, g
 
     def e_Tuple(self, e, env):
         parts = [self.expr(x, env) for x in e.elts]
@@ -280,9 +381,28 @@ class Fn:
         return coerce(ta, tya, t), coerce(tb, tyb, t), t, ga + gb
 
     def e_BinOp(self, e, env):
-        op = {ast.Add: "add", ast.Sub: "sub"}.get(type(e.op))
+        op = {ast.Add: "add", ast.Sub: "sub", ast.Mult: "mul"}.get(type(e.op))
+        if isinstance(e.op, ast.Pow):
+            if not (isinstance(e.left, ast.Constant) and isinstance(e.left.value, int) and not isinstance(e.left.value, bool) and e.left.value >= 1):
+                raise Unsupported("power with a base other than a positive integer literal", e)
+            x, ty, g = self.expr(e.right, env)
+            if ty != INT: raise Unsupported("power with an exponent of type %s" % show(ty), e)
+            return "(py_pow (%d)%%Z %s)" % (e.left.value, x), NUM, g
         if op is None: raise Unsupported("binary operator %s" % type(e.op).__name__, e)
-        x, y, t, g = self.num2(self.expr(e.left, env), self.expr(e.right, env), e)
+        L = self.expr(e.left, env); R = self.expr(e.right, env)
+        if L[1] == STR and R[1] == STR and op == "add":
+            return "tt", STR, L[2] + R[2]
+        lin = (VAR, LEXP)
+        if L[1] in lin or R[1] in lin:      # arithmetic of solver expressions: mirrored, given meaning by PyLin.v
+            if op == "mul":
+                if L[1] in NUMERIC and L[1] != EXT and R[1] in lin: q, x = L, R
+                elif R[1] in NUMERIC and R[1] != EXT and L[1] in lin: q, x = R, L
+                else: raise Unsupported("product of %s and %s" % (show(L[1]), show(R[1])), e)
+                return "(LScale %s %s)" % (coerce(q[0], q[1], NUM, e), coerce(x[0], x[1], LEXP, e)), LEXP, L[2] + R[2]
+            for z in (L, R):
+                if z[1] not in lin and z[1] not in (INT, NUM): raise Unsupported("%s of %s and %s" % (op, show(L[1]), show(R[1])), e)
+            return "(%s %s %s)" % ({"add": "LAdd", "sub": "LSub"}[op], coerce(L[0], L[1], LEXP, e), coerce(R[0], R[1], LEXP, e)), LEXP, L[2] + R[2]
+        x, y, t, g = self.num2(L, R, e)
         if op not in NUMOPS[t]: raise Unsupported("%s on %s" % (op, show(t)), e)
         return "(%s %s %s)" % (NUMOPS[t][op], x, y), t, g
 
@@ -316,6 +436,12 @@ class Fn:
             elif L[1][0] == "Opt": t = "(py_is_none %s)" % L[0]
             else: t = "false"          # a value of a non-optional embedded type is never None
             return (t if isinstance(op, ast.Is) else "(negb %s)" % t), BOOL, L[2]
+        if L[1] in (VAR, LEXP) or R[1] in (VAR, LEXP):      # a solver constraint object, not a boolean
+            sn = {ast.LtE: "SLe", ast.GtE: "SGe", ast.Eq: "SEq"}.get(type(op))
+            if sn is None: raise Unsupported("comparison %s between solver expressions" % type(op).__name__, e)
+            for z in (L, R):
+                if z[1] not in (VAR, LEXP, INT, NUM): raise Unsupported("constraint between %s and %s" % (show(L[1]), show(R[1])), e)
+            return "(mk_lcon %s %s %s)" % (coerce(L[0], L[1], LEXP, e), sn, coerce(R[0], R[1], LEXP, e)), CON, L[2] + R[2]
         if isinstance(op, (ast.In, ast.NotIn)):
             t, g = self.member(L, R, e)
             return (t if isinstance(op, ast.In) else "(negb %s)" % t), BOOL, g
@@ -363,7 +489,17 @@ class Fn:
             if n == 2: t = "(%s %s)" % (("fst", "snd")[k], b)
             else: t = ("(fst (fst %s))", "(snd (fst %s))", "(snd %s)")[k] % b
             return t, bty[1 + k], bg
+        if bty[0] == "VarDict":
+            # the dict returned by add_variables has exactly the keys it was created with: the index must be a loop /
+            # comprehension variable that runs over the same index list, so the lookup cannot fail
+            if not (isinstance(e.slice, ast.Name) and e.slice.id in env["bound"] and env["bound"][e.slice.id][2] is not None
+                    and env["bound"][e.slice.id][2] == bty[2]):
+                raise Unsupported("variable-dict lookup with an index that does not run over the dict's own index list", e)
+            return "(py_vardict_get %s %s)" % (b, env["bound"][e.slice.id][0]), VAR, bg
         k, kty, kg = self.expr(e.slice, env)
+        if bty[0] == "List":
+            if kty != INT: raise Unsupported("list index of type %s" % show(kty), e)
+            return ("(py_list_get %s %s %s)" % (dflt(bty[1]), b, k), bty[1], bg + kg + [("(negb (py_index_ok %s %s))" % (b, k), "IndexError")])
         if bty == EDATA:
             if kty != ATTR: raise Unsupported("edge-data dict indexed by something else than the attribute name", e)
             return "(py_opt_get (0#1)%%Q %s)" % b, NUM, bg + kg + [("(py_is_none %s)" % b, "KeyError")]
@@ -407,8 +543,51 @@ class Fn:
     def comp(self, e, env, kind):
         r = self.is_pairs_idiom(e, env)
         if r is None:
-            raise Unsupported("comprehension (only `[(p[i], p[i+1]) for i in range(len(p) - 1)]` is translated)", e)
+            if kind == "List": return self.gen_map(e, env)
+            raise Unsupported("set comprehension (only `{(p[i], p[i+1]) for i in range(len(p) - 1)}` is translated)", e)
         return r[0], (kind, r[1]), r[2]
+
+    def src_key(self, node):
+        """canonical description of an index list (for variable dicts): list(X) and [i for i in X] are X; a local that is
+        assigned exactly once at top level stands for its value; every name involved must be stable"""
+        while True:
+            if isinstance(node, ast.Call) and isinstance(node.func, ast.Name) and node.func.id == "list" and len(node.args) == 1 and not node.keywords:
+                node = node.args[0]; continue
+            if isinstance(node, (ast.ListComp, ast.GeneratorExp)) and len(node.generators) == 1:
+                g = node.generators[0]
+                if not g.ifs and isinstance(g.target, ast.Name) and isinstance(node.elt, ast.Name) and node.elt.id == g.target.id:
+                    node = g.iter; continue
+            if isinstance(node, ast.Name) and node.id in self.locals and self.assign_count.get(node.id) == 1 and node.id not in self.params:
+                node = self.assign_value[node.id]; continue
+            break
+        for n in ast.walk(node):
+            if isinstance(n, ast.Name) and isinstance(n.ctx, ast.Load):
+                if n.id in self.locals and (self.assign_count.get(n.id) != 1 or n.id in self.params):
+                    return None          # assigned more than once / in a loop or branch / a re-assigned parameter
+                if n.id in self.locals: continue
+                if n.id not in self.params and n.id not in ("range", "len"): return None
+        return ast.dump(node)
+
+    def gen_map(self, e, env):
+        """[ELT for v in LIST] / (ELT for v in LIST): map; ELT must be free of partial operations"""
+        if len(e.generators) != 1: raise Unsupported("comprehension with several generators", e)
+        g = e.generators[0]
+        if g.ifs or g.is_async or not isinstance(g.target, ast.Name): raise Unsupported("comprehension with a filter / tuple target", e)
+        v = g.target.id
+        if v in self.locals or v in self.params or v in env["bound"]:
+            raise Unsupported("comprehension variable %r shadows another name" % v, e)
+        it, ity, ig = self.expr(g.iter, env)
+        if ity[0] != "List": raise Unsupported("comprehension over a value of type %s" % show(ity), e)
+        cname = "c%d" % env["ncomp"][0]; env["ncomp"][0] += 1
+        env["bound"][v] = (cname, ity[1], self.src_key(g.iter))
+        try:
+            t, ty, tg = self.expr(e.elt, env)
+        finally:
+            del env["bound"][v]
+        if tg: raise Unsupported("partial operation inside a comprehension", e.elt)
+        return "(map (fun %s => %s) %s)" % (cname, t, it), List(ty), ig
+
+    def e_GeneratorExp(self, e, env): return self.gen_map(e, env)
 
     def e_ListComp(self, e, env): return self.comp(e, env, "List")
     def e_SetComp(self, e, env): return self.comp(e, env, "Set")
@@ -424,6 +603,24 @@ class Fn:
                     return "NegInf", EXT, []
                 raise Unsupported("float(...) other than float(\"-inf\")", e)
             if e.keywords: raise Unsupported("keyword arguments of %s" % n, e)
+            if n == "range":
+                if len(e.args) != 1: raise Unsupported("range with %d arguments (only range(n))" % len(e.args), e)
+                t, ty, g = self.expr(e.args[0], env)
+                if ty not in (INT, BITS): raise Unsupported("range of %s" % show(ty), e)
+                return "(py_range %s)" % t, List(INT), g
+            if n == "ceil":
+                a = e.args[0] if len(e.args) == 1 else None
+                if not (self.module_imports.get("ceil") == "math.ceil" and self.module_imports.get("log2") == "math.log2"
+                        and isinstance(a, ast.Call) and isinstance(a.func, ast.Name) and a.func.id == "log2" and len(a.args) == 1 and not a.keywords):
+                    raise Unsupported("ceil(...) other than math's ceil(log2(x))", e)
+                t, ty, g = self.expr(a.args[0], env)
+                if ty not in (INT, NUM): raise Unsupported("log2 of %s" % show(ty), e)
+                q = coerce(t, ty, NUM, e)
+                return "(py_ceil_log2 %s)" % q, BITS, g + [("(Qle_bool %s (0#1)%%Q)" % q, "ValueError")]      # log2(x <= 0): math domain error
+            if n in ("max", "min") and len(e.args) == 1:
+                t, ty, g = self.expr(e.args[0], env)
+                if ty != List(NUM): raise Unsupported("%s of a value of type %s" % (n, show(ty)), e)
+                return "(py_list_%s %s)" % (n, t), NUM, g + [("(py_list_is_empty %s)" % t, "ValueError")]
             if n in ("max", "min"):
                 if len(e.args) != 2: raise Unsupported("%s with %d arguments (only two)" % (n, len(e.args)), e)
                 x, y, t, g = self.num2(self.expr(e.args[0], env), self.expr(e.args[1], env), e)
@@ -438,9 +635,11 @@ class Fn:
                 if not e.args: return "[]", (kind, BOT), []
                 if len(e.args) != 1: raise Unsupported("%s arity" % n, e)
                 a = e.args[0]
-                if isinstance(a, (ast.ListComp, ast.SetComp, ast.GeneratorExp)):
+                if isinstance(a, (ast.ListComp, ast.SetComp, ast.GeneratorExp)) and self.is_pairs_idiom(a, env) is not None:
                     return self.comp(a, env, kind)
                 t, ty, g = self.expr(a, env)
+                if isinstance(a, ast.GeneratorExp) and kind == "List":
+                    return t, ty, g
                 if ty[0] == "List" or (ty[0] == "Set" and kind == "Set"):
                     return t, (kind, ty[1]), g
                 raise Unsupported("%s(...) of a value of type %s" % (n, show(ty)), e)
@@ -452,6 +651,13 @@ class Fn:
             if None in kw: raise Unsupported("**kwargs in a call", e)
             def data_true():
                 return set(kw) == {"data"} and isinstance(kw["data"], ast.Constant) and kw["data"].value is True
+            if rty == WRAP:
+                if m == "quicksum" and self.emits and len(e.args) == 1 and not kw:
+                    t, ty, g = self.expr(e.args[0], env)
+                    if ty[0] != "List" or ty[1] not in (VAR, LEXP): raise Unsupported("quicksum of a value of type %s" % show(ty), e)
+                    if ty[1] == VAR: t = "(map LVar %s)" % t
+                    return "(py_quicksum %s)" % t, LEXP, rg + g
+                raise Unsupported("call of self.%s in an expression" % m, e)
             if rty == GRAPH:
                 if m == "nodes" and not e.args and not kw: return "(g_nodes %s)" % recv, List(NODE), rg
                 if m == "edges" and not e.args and data_true(): return "(g_edges %s)" % recv, List(DEDGE), rg
@@ -514,15 +720,105 @@ class Fn:
         walk(node)
         return guards
 
+    # -------------------------------------------------------------------------------- calls that emit
+    def self_call(self, e, env):
+        """name of the method if e is `self.<method>(...)` on the wrapper parameter, else None"""
+        if isinstance(e, ast.Call) and isinstance(e.func, ast.Attribute) and isinstance(e.func.value, ast.Name):
+            n = e.func.value.id
+            if n in self.params and self.ptype[n] == WRAP and n not in env["bound"]:
+                return e.func.attr
+        return None
+
+    def bind_args(self, e, names, defaults):
+        """positional / keyword arguments of a call -> {parameter name: node}"""
+        if any(isinstance(a, ast.Starred) for a in e.args) or any(k.arg is None for k in e.keywords):
+            raise Unsupported("* / ** arguments", e)
+        if len(e.args) > len(names): raise Unsupported("too many arguments", e)
+        b = dict(zip(names, e.args))
+        for k in e.keywords:
+            if k.arg not in names or k.arg in b: raise Unsupported("argument %r" % k.arg, e)
+            b[k.arg] = k.value
+        for n in names:
+            if n not in b and n not in defaults: raise Unsupported("missing argument %r" % n, e)
+        return b
+
+    def add_variables_call(self, e, env):
+        b = self.bind_args(e, ["indexes", "name_prefix", "lb", "ub", "var_type"], {"lb": 0, "ub": 1, "var_type": "integer"})
+        it, ity, g = self.expr(b["indexes"], env)
+        if ity != List(INT): raise Unsupported("add_variables over indexes of type %s" % show(ity), e)
+        key = self.src_key(b["indexes"])
+        if key is None: raise Unsupported("add_variables over an index list that is not a stable expression", b["indexes"])
+        pre = b["name_prefix"]
+        if not (isinstance(pre, ast.JoinedStr) and len(pre.values) == 2 and isinstance(pre.values[0], ast.Constant)
+                and pre.values[0].value in PREFIX_FAMILY and isinstance(pre.values[1], ast.FormattedValue)
+                and pre.values[1].format_spec is None and pre.values[1].conversion == -1 and isinstance(pre.values[1].value, ast.Name)):
+            raise Unsupported("name_prefix of add_variables (only f\"<%s>{name}\")" % "|".join(PREFIX_FAMILY), pre)
+        nm, nty, ng = self.expr(pre.values[1].value, env)
+        if nty != HNAME: raise Unsupported("name_prefix built from a value of type %s" % show(nty), pre)
+        bounds = []
+        for k in ("lb", "ub"):
+            if k in b:
+                t, ty, gg = self.expr(b[k], env); g = g + gg
+                if ty not in (INT, NUM): raise Unsupported("bound %s of type %s (only scalars)" % (k, show(ty)), b[k])
+                bounds.append(coerce(t, ty, NUM, e))
+            else:
+                bounds.append({"lb": "(0#1)%Q", "ub": "(1#1)%Q"}[k])
+        vt = b.get("var_type")
+        vt = "integer" if vt is None else (vt.value if isinstance(vt, ast.Constant) else None)
+        if vt not in ("integer", "continuous"): raise Unsupported("var_type of add_variables", e)
+        fam = PREFIX_FAMILY[pre.values[0].value]
+        cols = "(py_add_variables %s %s %s %s %s %s)" % (fam, nm, it, bounds[0], bounds[1], "true" if vt == "integer" else "false")
+        return cols, fam, nm, key, g + ng
+
+    def emit_call_stmt(self, e, env):
+        m = self.self_call(e, env)
+        if m == "add_constraint":
+            b = self.bind_args(e, ["expr", "name"], {"name": ""})
+            t, ty, g = self.expr(b["expr"], env)
+            if ty != CON: raise Unsupported("add_constraint of a value of type %s" % show(ty), e)
+            if "name" in b:
+                _, nty, ng = self.expr(b["name"], env); g = g + ng
+                if nty not in (STR, HNAME): raise Unsupported("constraint name of type %s" % show(nty), b["name"])
+            return self.guarded(g, "py_assign (fun s => emit_out [] [mk_row %s] s)" % t)
+        if m == "add_variables":
+            cols, fam, nm, key, g = self.add_variables_call(e, env)
+            return self.guarded(g, "py_assign (fun s => emit_out %s [] s)" % cols)
+        callee = [k for k, v in TARGETS.items() if v.get("emits") and v["cls"] == self.spec["cls"] and v["func"] == m and v["file"] == self.spec["file"]]
+        if len(callee) != 1 or callee[0] == self.target:
+            raise Unsupported("call of self.%s (not a translated helper)" % m, e)
+        callee = callee[0]; cs = TARGETS[callee]
+        fs = [n for n in self.classdef.body if isinstance(n, ast.FunctionDef) and n.name == m]
+        if len(fs) != 1: raise Unsupported("source layout: %s not found exactly once" % m, e)
+        names = [a.arg for a in fs[0].args.args]
+        if len(names) != len(cs["params"]) or fs[0].args.defaults: raise Unsupported("signature of the callee %s" % m, e)
+        b = self.bind_args(e, names[1:], {})
+        args = []; g = []
+        for n, ty in list(zip(names, cs["params"]))[1:]:
+            t, aty, gg = self.expr(b[n], env); g += gg
+            if ty in ERASED:
+                if aty not in (STR, HNAME): raise Unsupported("argument %r of type %s" % (n, show(aty)), b[n])
+                continue
+            if ty == HNAME and aty != HNAME: raise Unsupported("argument %r of type %s" % (n, show(aty)), b[n])
+            args.append(coerce(t, aty, ty, b[n]) if aty != ty else t)
+            if aty != ty and not (aty in NUMERIC and ty in NUMERIC): raise Unsupported("argument %r of type %s, expected %s" % (n, show(aty), show(ty)), b[n])
+        if callee not in self.callees: self.callees.append(callee)
+        return self.guarded(g, "py_emit_call (fun s => Gen_%s.fn %s) emit_out" % (callee, " ".join(args)))
+
     def stmt(self, s, env):
         """returns (gallina stmt term, falls_through: bool)"""
         if isinstance(s, ast.Expr):
             if isinstance(s.value, ast.Constant) and isinstance(s.value.value, str): return None, True   # docstring / string statement
+            if self.emits and self.self_call(s.value, env) is not None:
+                return self.emit_call_stmt(s.value, env), True
             if is_logging_call(s.value):
                 g = self.dropped_guards(s.value, env)
                 return (self.guarded(g, "py_skip") if g else None), True
             raise Unsupported("expression statement", s)
         if isinstance(s, ast.Pass): return None, True
+        if isinstance(s, ast.Assign) and self.emits and self.self_call(s.value, env) == "add_variables":
+            cols, fam, nm, key, g = self.add_variables_call(s.value, env)
+            a = self.assign_to(s.targets[0].id, "(%s, %s)" % (fam, nm), VarDict(fam, key), env, s)
+            return self.guarded(g, "py_seq\n%s\n%s" % (self.ind("py_assign (fun s => emit_out %s [] s)" % cols), self.ind(a))), True
         if isinstance(s, ast.Assign):
             t, ty, g = self.expr(s.value, env)
             return self.guarded(g, self.assign_to(s.targets[0].id, t, ty, env, s)), True
@@ -570,7 +866,8 @@ class Fn:
             for n in names:
                 if n in env["bound"]: raise Unsupported("loop variable %r rebound by a nested loop" % n, s)
             d0 = env["defined"]; bound0 = dict(env["bound"]); inloop0 = env["inloop"]
-            env["bound"].update({n: (i, t) for n, i, t in zip(names, inames, tys)}); env["inloop"] = True
+            key = self.src_key(s.iter) if len(names) == 1 else None
+            env["bound"].update({n: (i, t, key) for n, i, t in zip(names, inames, tys)}); env["inloop"] = True
             b, _ = self.block(s.body, env)
             env["defined"] = d0; env["bound"] = bound0; env["inloop"] = inloop0
             return self.guarded(g, "py_for (fun s => %s) (fun %s =>\n%s)" % (t, pat, self.ind(b))), True
@@ -597,7 +894,7 @@ class Fn:
         ret = BOT
         final = {}; final_ret = None
         for rnd in range(8):
-            env = dict(vt=dict(vt), defined=set(self.state_params), bound={}, inloop=False, ret=[ret], final=final, final_ret=final_ret)
+            env = dict(vt=dict(vt), defined=set(self.state_params), bound={}, inloop=False, ret=[ret], final=final, final_ret=final_ret, ncomp=[0])
             body, falls = self.block(self.fdef.body, env)
             if env["vt"] == vt and env["ret"][0] == ret:
                 break
@@ -607,6 +904,7 @@ class Fn:
         for n in self.locals:
             if n not in vt or has_bot(vt[n]):
                 raise Unsupported("type of local %r could not be determined (%s)" % (n, show(vt.get(n, BOT))), self.fdef)
+        if ret == BOT and self.emits: ret = NONE        # an emitter falls off its end (returns None)
         if ret == BOT: raise Unsupported("function has no return statement", self.fdef)
         if ret != self.spec["ret"]:
             raise Unsupported("return type %s, the typed embedding declares %s" % (show(ret), show(self.spec["ret"])), self.fdef)
@@ -615,7 +913,8 @@ class Fn:
         order = sorted(self.locals, key=lambda n: (gty(vt[n]), self.locals.index(n)))
         self.xname = {n: "x%d" % i for i, n in enumerate(order)}
         self.locals_in_field_order = order
-        env = dict(vt=dict(vt), defined=set(self.state_params), bound={}, inloop=False, ret=[ret], final=vt, final_ret=ret)
+        env = dict(vt=dict(vt), defined=set(self.state_params), bound={}, inloop=False, ret=[ret], final=vt, final_ret=ret, ncomp=[0])
+        self.callees = []
         body, falls = self.block(self.fdef.body, env)
         if env["vt"] != vt: raise Unsupported("type inference unstable in the emission pass", self.fdef)
         return self.emit(vt, ret, body)
@@ -625,31 +924,47 @@ class Fn:
         L = []
         L.append("(* GENERATED by harness/translate.py from %s :: %s%s — do not edit." % (sp["file"], (sp["cls"] + "." if sp["cls"] else ""), sp["func"]))
         L.append("   parameters: " + ", ".join("%s = %s : %s" % (self.aname[p], p, show(self.ptype[p])) for p in self.params))
-        L.append("   locals:     " + (", ".join("%s = %s : %s" % (self.xname[n], n, show(vt[n])) for n in self.locals_in_field_order) or "(none)"))
+        L.append("   locals:     " + (", ".join("%s = %s : %s" % (self.xname[n], n, show(vt[n])[:60]) for n in self.locals_in_field_order) or "(none)"))
         L.append("   loop vars:  " + (", ".join("i%d = %s" % (i, n) for i, n in enumerate(self.loopvars)) or "(none)") + " *)")
         L.append("From Coq Require Import List NArith ZArith QArith Bool.")
         L.append("Import ListNotations.")
-        L.append("From FP Require Import PyRt.")
+        if self.emits:
+            L.append("From FP Require Import Lin PyRt PyLin.")
+            for c in self.callees:
+                L.append("From FPGen Require Gen_%s." % c)
+        else:
+            L.append("From FP Require Import PyRt.")
         L.append("")
         order = self.locals_in_field_order
-        fields = [(self.xname[n], gty(vt[n])) for n in order] or [("x_unit", "unit")]
+        fields = [(self.xname[n], gty(vt[n])) for n in order]
+        if self.emits:       # the columns and rows handed to the solver so far, in order
+            fields += [("o_cols", "(list col)"), ("o_rows", "(list row)")]
+        fields = fields or [("x_unit", "unit")]
+        rty = "unit" if ret == NONE else gty(ret)
         L.append("Record st := mk_st { " + "; ".join("%s : %s" % f for f in fields) + " }.")
         for i, (f, ty) in enumerate(fields):
             args = " ".join("v_" if j == i else "(%s s)" % g for j, (g, _) in enumerate(fields))
             L.append("Definition set_%s (v_ : %s) (s : st) : st := mk_st %s." % (f, ty, args))
-        gparams = [(self.aname[p], gty(self.ptype[p])) for p in self.params if self.ptype[p] != ATTR]
+        if self.emits:
+            L.append("Definition emit_out (cs : list col) (rs : list row) (s : st) : st := set_o_rows (o_rows s ++ rs) (set_o_cols (o_cols s ++ cs) s).")
+        gparams = [(self.aname[p], gty(self.ptype[p])) for p in self.params if self.ptype[p] not in ERASED]
         binder = " ".join("(%s : %s)" % gp for gp in gparams)
         names = " ".join(gp[0] for gp in gparams)
         init = []
         for n in order:
             init.append(self.aname[n] if n in self.state_params else dflt(vt[n]))
-        if not self.locals: init = ["tt"]
+        if self.emits: init += ["[]", "[]"]
+        if not init: init = ["tt"]
         L.append("Definition init_st %s : st := mk_st %s." % (binder, " ".join(init)))
         L.append("")
-        L.append("Definition body %s : stmt st %s :=" % (binder, gty(ret)))
+        L.append("Definition body %s : stmt st %s :=" % (binder, rty))
         L.append(self.ind(body) + ".")
         L.append("")
-        L.append("Definition fn %s : result %s := py_run (body %s) (init_st %s)." % (binder, gty(ret), names, names))
+        if self.emits:
+            L.append("Definition fn %s : result %s * list col * list row :=" % (binder, rty))
+            L.append("  let r := body %s (init_st %s) in (py_outcome (fst r), o_cols (snd r), o_rows (snd r))." % (names, names))
+        else:
+            L.append("Definition fn %s : result %s := py_run (body %s) (init_st %s)." % (binder, rty, names, names))
         L.append("")
         return "\n".join(L)
 
@@ -667,14 +982,21 @@ REJECT = {
     "bare return": "return",
     "chained assignment": "a = b = 0\nreturn a",
     "tuple assignment": "a, b = 0, 1\nreturn a",
-    "list index": "r = 0\nfor p in paths_in_DAG:\n    r = p[0]\nreturn r",
+    "dict of lists index": "r = 0\nfor p in paths_in_DAG:\n    r = paths_in_DAG[0][0]\nreturn 0",
+    "slice": "r = seq[1:]\nreturn 0",
     "sum()": "return sum(edge_lengths.get(e, 1) for e in seq)",
     "any()": "r = 0\nif any(e in seq for e in seq):\n    r = 1\nreturn r",
-    "general comprehension": "s = [e for e in seq]\nreturn len(s)",
+    "comprehension with two generators": "s = [e for e in seq for f in seq]\nreturn 0",
+    "dict comprehension": "s = {e: 1 for e in seq}\nreturn 0",
+    "partial operation in a comprehension": "s = [edge_lengths[e] for e in seq]\nreturn 0",
     "filtered pairs": "r = 0\nfor p in paths_in_DAG:\n    s = [(p[i], p[i + 1]) for i in range(len(p) - 1) if i]\nreturn r",
     "pairs off by one": "r = 0\nfor p in paths_in_DAG:\n    s = [(p[i], p[i + 1]) for i in range(len(p))]\nreturn r",
     "lambda": "f = lambda x: x\nreturn 0",
-    "multiplication": "r = 2\nr = r * 2\nreturn r",
+    "division": "r = 2\nr = r / 2\nreturn 0",
+    "floor division": "r = 2\nr = r // 2\nreturn 0",
+    "power of a variable": "r = 2\nr = r ** 2\nreturn 0",
+    "math call": "r = ceil(2)\nreturn 0",
+    "self call in a non-emitter": "seq.add_constraint(0)\nreturn 0",
     "float constant": "r = 0.5\nreturn r",
     "float(inf)": "r = float(\"inf\")\nreturn 0",
     "truthiness": "r = 0\nif seq:\n    r = 1\nreturn r",
@@ -710,6 +1032,78 @@ REJECT = {
 }
 
 
+# bodies that must be rejected as replacement of SolverWrapper.add_binary_continuous_product_constraint (emitter subset),
+# and edits of the wrapper primitives that must make the translation of every emitter fail
+REJECT_EMIT = {
+    "direct solver access": "self.solver.addConstr(product_var <= ub * binary_var)",
+    "strict inequality": "self.add_constraint(product_var < ub * binary_var, name=name)",
+    "product of variables": "self.add_constraint(product_var * binary_var <= ub, name=name)",
+    "division of an expression": "self.add_constraint(product_var / 2 <= ub, name=name)",
+    "boolean instead of a constraint": "self.add_constraint(lb <= ub, name=name)",
+    "floor(log2())": "n = floor(log2(ub))",
+    "ceil of something else": "n = ceil(ub)",
+    "log2 alone": "n = log2(ub)",
+    "arithmetic on the bit count": "n = ceil(log2(ub))\nm = n + 1",
+    "backend test": "if self.external_solver == 'highs':\n    self.add_constraint(product_var <= ub, name=name)",
+    "other wrapper method": "self.set_objective(product_var)",
+    "literal name_prefix": "v = self.add_variables([0], name_prefix='foo', lb=0, ub=1)",
+    "name_prefix from a plain string": "v = self.add_variables(list(range(2)), name_prefix=f'binary_{name}', lb=0, ub=1)",
+    "list literal": "for r in [product_var]:\n    self.add_constraint(r <= ub, name=name)",
+    "return value": "self.add_constraint(product_var <= ub, name=name)\nreturn product_var",
+    "constraint kept in a local": "k = product_var <= ub\nself.add_constraint(k, name=name)",
+    "extra argument": "self.add_constraint(product_var <= ub, name, 3)",
+    "chained constraint": "self.add_constraint(lb <= product_var <= ub, name=name)",
+}
+PRIMITIVE_EDITS = {
+    "add_constraint drops the name": ("self.solver.addConstr(expr, name=name)", "self.solver.addConstr(expr)", 2),
+    "quicksum via python sum": ("return self.solver.qsum(expr)", "return sum(expr)", 1),
+    "add_variables bounds swapped": ("lb=lbs, \n                ub=ubs, ", "lb=ubs, \n                ub=lbs, ", 1),
+    "add_variables integer type map": ('"integer": highspy.HighsVarType.kInteger', '"integer": highspy.HighsVarType.kContinuous', 1),
+    "scalar bound rounded": ("return [float(param)] * len(indexes)", "return [float(round(param))] * len(indexes)", 1),
+}
+
+
+def selftest_emit(repo=None):
+    """fail-closed self test of the emitter subset on a scratch copy of the CURRENT solverwrapper.py; (rejected, total, wrongly accepted).
+    If the current source does not have the expected layout the test cannot be set up: (0, 0, [])."""
+    import tempfile, shutil
+    repo = repo or os.environ.get("VERIF_REPO", "/repo")
+    T = TARGETS["binprod"]
+    try:
+        src = open(os.path.join(repo, T["file"])).read()
+        tree = ast.parse(src)
+        cls = [n for n in tree.body if isinstance(n, ast.ClassDef) and n.name == T["cls"]][0]
+        f = [n for n in cls.body if isinstance(n, ast.FunctionDef) and n.name == T["func"]][0]
+        lines = src.splitlines(keepends=True)
+        first = f.body[1].lineno if isinstance(f.body[0], ast.Expr) and isinstance(f.body[0].value, ast.Constant) else f.body[0].lineno
+        head, tail = lines[:first - 1], lines[f.end_lineno:]
+        translate("binprod", repo)
+    except Exception:
+        return 0, 0, []
+    d = tempfile.mkdtemp(prefix="translate_selftest_")
+    bad = []; total = 0
+    try:
+        path = os.path.join(d, T["file"]); os.makedirs(os.path.dirname(path))
+        for k, body in REJECT_EMIT.items():
+            total += 1
+            open(path, "w").write("".join(head) + "".join("        " + l + "\n" for l in body.splitlines()) + "\n" + "".join(tail))
+            try:
+                translate("binprod", d); bad.append(k)
+            except Unsupported:
+                pass
+        for k, (old, new, cnt) in PRIMITIVE_EDITS.items():
+            if src.count(old) != cnt: continue
+            total += 1
+            open(path, "w").write(src.replace(old, new, 1))
+            try:
+                translate("binprod", d); bad.append(k)
+            except Unsupported:
+                pass
+    finally:
+        shutil.rmtree(d, ignore_errors=True)
+    return total - len(bad), total, bad
+
+
 def selftest():
     """every body in REJECT must raise Unsupported; returns (rejected, total, list of wrongly accepted)"""
     import tempfile, shutil
@@ -732,8 +1126,9 @@ def selftest():
 def main(argv):
     if argv == ["--selftest"]:
         ok, n, bad = selftest()
-        print("fail-closed self test: %d/%d unsupported bodies rejected%s" % (ok, n, ("; WRONGLY ACCEPTED: %s" % bad) if bad else ""))
-        return 0 if not bad else 4
+        ok2, n2, bad2 = selftest_emit()
+        print("fail-closed self test: %d/%d unsupported bodies rejected, emitter subset %d/%d%s" % (ok, n, ok2, n2, ("; WRONGLY ACCEPTED: %s" % (bad + bad2)) if bad + bad2 else ""))
+        return 0 if not (bad or bad2) else 4
     out = None; repo = None; args = []
     i = 0
     while i < len(argv):
